@@ -1072,6 +1072,26 @@ func overlaps(a, b string) bool {
 }
 
 func (g *Gen) callStmt(o *out, d int) {
+	// pointer-receiver method on an addressable struct variable or through a pointer
+	if len(g.pmethods) > 0 && g.coin(35, "pmcall") {
+		m := g.pmethods[g.n(0, len(g.pmethods)-1, "pm")]
+		var recvs []string
+		for _, v := range g.visible() {
+			if v.RO || !g.writableHere(v) {
+				continue
+			}
+			if v.T == m.Recv || (v.T.Kind == KPtr && v.T.Elem == m.Recv) {
+				recvs = append(recvs, v.Name)
+			}
+		}
+		if len(recvs) > 0 && g.cost+g.mult*m.Cost <= g.budget {
+			g.cost += g.mult * m.Cost
+			r := recvs[g.n(0, len(recvs)-1, "pmr")]
+			o.line("%s.%s(%s)", r, m.Name, g.exprNoRead(m.Params[0], 2, r))
+			g.use("method-ptr-call")
+			return
+		}
+	}
 	var cands []*fnInfo
 	for _, f := range g.funcs {
 		if f.Recv == nil && g.cost+g.mult*f.Cost <= g.budget {
@@ -1149,10 +1169,6 @@ func (g *Gen) mapStmt(o *out, d int) {
 		o.line("%s[%s] = %s", p.code, k, g.expr(p.t.Elem, 2))
 		g.use("map-assign")
 	case 1:
-		if !g.on("delete-big-uint-const") && p.t.Key.Kind == KInt && !p.t.Key.Signed && p.t.Key.Bits == 64 {
-			// known finding: delete(m, <constant above MaxInt64>) panics "overflows int64"
-			k = g.nonConst(p.t.Key, 1)
-		}
 		o.line("delete(%s, %s)", p.code, k)
 		g.use("map-delete")
 	case 2:
